@@ -74,6 +74,8 @@ def all_cases(ctx):
         ins = [(f"i{j}", "input", []) for j in range(7)]
         wide_shared.append((("wide_shared", t), mkspec(f"wide_shared_{t}", ins + [("m", "or", ["i0", "i1"]), ("w", t, ["m", "i1", "i2", "i3", "i4", "i5"]), ("v", "and", ["m", "i6"]), ("o", "xor", ["w", "v"], True)])))
     cs = [textbook()] + F.f_shape() + F.f_unit(5) + wide + wide_shared + x_cases() + F.reordered([textbook()] + F.f_shape()) + F.f_rand(ctx.seed, 30 if ctx.quick else 300)
+    # nodes named like the helpers limit_fanin (called inside supergates) creates: a netlist that was fan-in limited before
+    cs += F.renamed([c for c in F.f_unit(5, pairs=False) if c[0][2] >= 3] + [c for c in F.f_unit(3) if c[0][0] == "pair"][:8], "limit")
     if not ctx.quick:
         import random
         cs += [(("rand24", ctx.seed, i), F.rand_dag(random.Random(f"c17-24-{ctx.seed}-{i}"), n_in=5, n_gates=24, max_arity=3, name=f"r24_{i}")) for i in range(40)]
